@@ -113,6 +113,9 @@ TEMPLATES = [
       bare_year=True, group='hms'),
     T('US m/d/Y NNhNNmNN', 'hms', lambda d, n, s: '%02d/%02d/%04d %02dh%02dm%02d' % (d.month, d.day, d.year, d.hour, d.minute, d.second),
       flags={'dayfirst': False, 'yearfirst': False}, offset_ok=False, group='hms'),
+    T('hms first D-Mon-Y', 'hms', lambda d, n, s: '%s %02d-%s-%04d' % (hms(d), d.day, MON[d.month - 1], d.year), offset_ok=False, group='monthname'),
+    T('12h hms first D-Mon-Y', 'hms', lambda d, n, s: '%d:%02d:%02d %s %02d-%s-%04d' % (h12(d)[0], d.minute, d.second, h12(d)[1], d.day, MON[d.month - 1], d.year),
+      offset_ok=False, group='ampm'),
     # ... with the time in front of a date that starts with a number (a number after an h/m/s label and a blank is a
     # date member unless it is the last token)
     T('NNhNNmNNs first D Mon Y', 'hms', lambda d, n, s: '%02dh%02dm%02ds %d %s %04d' % (d.hour, d.minute, d.second, d.day, MON[d.month - 1], d.year),
